@@ -424,3 +424,47 @@ func VerifC06JSONNumbers() {
 	}
 	verifCover("C06/numbers/end")
 }
+
+// VerifC06MergeKeysToJSON: "aliases and merge keys resolved" — a map that merges other maps (also through a map that
+// has a merge key or a merge list of its own) is converted the way `yq -o=json .H` does it (the printer explodes the
+// result node alone, then the JSON encoder walks it): the JSON object has no `<<` member and, for every key, exactly
+// the value the merge-key rules define. Keys are symbolic as in C13; the document builder and the rule reference are
+// C13's.
+func VerifC06MergeKeysToJSON() {
+	ka1, ka2, kb1, kb2, e1, e2 := c13Keys()
+	mergeKind := 4 + verifChoice("merge", 2)
+	pos := verifChoice("pos", 2) * 2
+	q := verifStrN("q", 1, "ad")
+	want, src := c13Ref(q, ka1, ka2, kb1, kb2, e1, e2, mergeKind)
+	label := c13MergeNames[mergeKind] + " " + c13PosNames[pos] + " key=" + src
+	doc := vDoc(c13Build(ka1, ka2, kb1, kb2, e1, e2, mergeKind, pos))
+	hres, err := vEval(vParse(".H"), doc)
+	if err != nil || hres.Len() != 1 {
+		verifFail("C06/merge-read-error " + label)
+	}
+	exp := ExpressionNode{Operation: &Operation{OperationType: explodeOpType}}
+	ctx, err := NewDataTreeNavigator().GetMatchingNodes(Context{MatchingNodes: hres}, &exp)
+	if err != nil || ctx.MatchingNodes.Len() != 1 {
+		verifFail("C06/merge-explode-error " + label)
+	}
+	h := ctx.MatchingNodes.Front().Value.(*CandidateNode)
+	b, err := h.MarshalJSON()
+	verifAssert(err == nil, "C06/encode-error merge "+label)
+	if err != nil {
+		return
+	}
+	js := string(b)
+	verifObserve("json", js)
+	verifAssert(!strings.Contains(js, "S(<<)"), "C06/json-object-keeps-a-merge-key "+label)
+	if src == "explicit-also-merged" || src == "merged-in-both-listed" || src == "merged-through-the-merged-map-in-both-listed" {
+		verifCover("C06/merge-json/recorded-class")
+		return // recorded findings of C13 (an explicit key before <<, list order on traversal): not re-reported here
+	}
+	member := "S(" + q + "):I(" + want + ")"
+	if want == "" {
+		verifAssert(!strings.Contains(js, "S("+q+"):"), "C06/json-object-has-a-member-the-merge-rules-do-not-define "+label)
+	} else {
+		verifAssert(strings.Contains(js, member), "C06/json-member-differs-from-the-merge-rules "+label)
+	}
+	verifCover("C06/merge-json/end")
+}
